@@ -230,4 +230,13 @@ def rule_own_event(ctx: Ctx):
     c07.rule_layer(ctx, rule="C14.collect")
 
 
-RULES = [rule_flow, rule_collect, rule_none, rule_first, rule_every_callback, rule_stale_queue, rule_own_event]
+def rule_registered_callable_runs(ctx: Ctx):
+    """C14.collect: the value a callback contributes is returned by the callable that was registered: the builders that wrap
+    a provider's attribute run for every callable (no memo in front of them serving the wrapper of another callable)."""
+    from ..wrappers import check_fresh
+    from .c07 import _resolution_pipeline
+
+    check_fresh(ctx, "C14.collect", _resolution_pipeline(ctx), "results come from the registered callbacks' own return values")
+
+
+RULES = [rule_flow, rule_collect, rule_none, rule_first, rule_every_callback, rule_stale_queue, rule_own_event, rule_registered_callable_runs]
